@@ -135,7 +135,7 @@ var C15 = &sqrun.Check{ID: "C15", QuickBudget: 60, ThoroughBudget: 600,
 				fields = append(fields, p)
 			}
 		}
-		rts := []int64{0, int64(999 * time.Microsecond), int64(time.Millisecond), int64(1500 * time.Microsecond), int64(time.Second), 1<<63 - 1, -1}
+		rts := []int64{0, int64(999 * time.Microsecond), int64(time.Millisecond), int64(1500 * time.Microsecond), int64(time.Second), 1<<63 - 1, -1, -int64(time.Millisecond), -int64(time.Second), -1 << 63}
 		// (1) every payload as data / comment / both; (2) ID x Type x Retry x shapes
 		k.parallel(len(payloads), func(i int) {
 			p := payloads[i]
@@ -165,7 +165,7 @@ var C15 = &sqrun.Check{ID: "C15", QuickBudget: 60, ThoroughBudget: 600,
 		cov := ev.Coverage{"evaluations": k.cases.Load(), "distinct_nontrivial": k.nontriv.Load(), "exhaustive": k.exhaustive(),
 			"payload_strings": len(payloads), "field_strings": nf,
 			"samples": []any{MsgSpec{Calls: []Call{{"data", []string{" a\r"}}}, ID: "", HasID: true}, map[string]any{"message": MsgSpec{ID: "i", HasID: true}, "fault": "Write #2 accepts 1 byte"}},
-			"rule":    fmt.Sprintf("every string of <= %d tokens over %q as data and comment payload, and every combination of ID / type (all %d single-line strings of <= 2 tokens, set or unset, incl. the empty string) x 7 Retry values x 3 chunk shapes: (1) round trip UnmarshalText(MarshalText(m)) compared field by field and by re-encoding; WriteTo/MarshalText/String byte-identical; nothing to write => zero bytes; (2) fault enumeration: for every Write call k of the encoding and every j in [0, len(k-th write)] a writer that accepts j bytes of the k-th write and fails. Non-trivial = messages with at least one field / every fault case.", L, toks, nf)}
+			"rule":    fmt.Sprintf("every string of <= %d tokens over %q as data and comment payload, and every combination of ID / type (all %d single-line strings of <= 2 tokens, set or unset, incl. the empty string) x 10 Retry values (incl. negative ones down to the int64 minimum) x 3 chunk shapes: (1) round trip UnmarshalText(MarshalText(m)) compared field by field and by re-encoding; WriteTo/MarshalText/String byte-identical; nothing to write => zero bytes; (2) fault enumeration: for every Write call k of the encoding and every j in [0, len(k-th write)] a writer that accepts j bytes of the k-th write and fails. Non-trivial = messages with at least one field / every fault case.", L, toks, nf)}
 		return &sqrun.Outcome{Level: "fault_enumeration", Coverage: cov, Assumptions: []string{"IDs containing NUL are outside the round-trip clause (the property says so); negative Retry values round-trip to zero (nothing is written for them)"}}
 	},
 }
